@@ -34,5 +34,20 @@ func LoadVocab() error {
 		return err
 	}
 	UGCVocab = BlankAP()
-	return LoadJSONFile(SpecDir()+"/ugc_vocabulary.json", UGCVocab)
+	if err := LoadJSONFile(SpecDir()+"/ugc_vocabulary.json", UGCVocab); err != nil {
+		return err
+	}
+	// the committed list of CSS properties that have a default handler (keys of css_vocabulary.json)
+	var cv map[string]json.RawMessage
+	if err := LoadJSONFile(SpecDir()+"/css_vocabulary.json", &cv); err == nil {
+		CSSProps = map[string]bool{}
+		for k := range cv {
+			CSSProps[k] = true
+		}
+	}
+	return nil
 }
+
+// CSSProps: the properties that have a default handler according to the committed vocabulary (independent of the code under
+// test): a property outside it has none, whatever GetDefaultHandler returns.
+var CSSProps map[string]bool
